@@ -1203,7 +1203,8 @@ class Client():
             if self.connector.connected:
                 if self.respondent:
                     if self.respondent.evented and self.respondent.leid is not None:  # update Last-Event-ID header
-                        self.requester.headers['Last-Event-ID'] = self.respondent.leid
+                        # event id is any utf-8 text, header values are packed as latin-1
+                        self.requester.headers['Last-Event-ID'] = self.respondent.leid.encode('utf-8')
                         self.connector.txbs.clear()  # remove any stale request leftovers
                         self.transmit()  # rebuilds and queues up most recent http request here
 
